@@ -377,7 +377,7 @@ PROPS['C02'] = dict(
 )
 # C04: the receive-path mode joins the packet-half mode of the existing entry
 def is_recv_line(inp):
-    return inp.split(' ', 1)[0] in ('recv', 'tcpsock', 'probe', 'sockerr', 'recvseq')
+    return inp.split(' ', 1)[0] in ('recv', 'tcpsock', 'probe', 'sockerr', 'recvseq', 'tcpseq')
 
 
 _c04_pkt = PROPS['C04']
